@@ -15,7 +15,7 @@ EXPLANATION = (
     'values, vectors, residuals and small vectors with one index vector; (D2) the correction step divides the residual by '
     '(theta_k - a_ii) with no guard: classified UNGUARDED, recorded as a known finding (exactly decoupled coordinate => NaN); '
     '(D3) the status is assigned on every path of the iteration entry point -- today NOT the case when maxit <= 0 (loop not '
-    'entered): recorded as a known finding. Does NOT decide that the cached products equal A times the basis to rounding, '
+    'entered): recorded as a known finding. (D4) no `noalias()` assignment of the Davidson classes has its destination among the factors of a product on its right-hand side. Does NOT decide that the cached products equal A times the basis to rounding, '
     'orthonormality of the basis, or the effect of dependent user-supplied guesses.')
 ASSUMPTIONS = ['Eigen::SelfAdjointEigenSolver returns ascending eigenvalues with orthonormal vectors']
 
